@@ -194,7 +194,7 @@ def run(case, rec):
                     rec.nchecks += 1
                 # metamorphic: scaling all weights leaves an undamped fit unchanged
                 if damping is None and wk == "ramp" and di in (0, len(datas) - 1):
-                    for c in (1e-3, 7.0, 1e4):
+                    for c in (1e-3, 7.0, 1e4, 1e-10, 1e12):
                         est2 = make(None)
                         w2 = tuple(x * c for x in w) if vector else w * c
                         f2 = call(rec, est2.fit, (e, n), dd, w2)
